@@ -107,6 +107,11 @@ class TemplateWriter(IWriter):
             if root_module_path.name == 'index.html':
                 # The root module is itself named 'index': its page already is index.html.
                 return
+            if root_module_path.name in [pclass.filename for pclass in 
+                    itertools.chain(summary.summaryPages(system), search.searchpages)]:
+                # The root module is named like one of the summary pages 
+                # (classIndex, nameIndex...): that page keeps its file.
+                return
             try:
                 root_module_path.unlink()
                 # not using missing_ok=True because that was only added in Python 3.8 and we still support Python 3.6
